@@ -455,7 +455,7 @@ func resolveUnionBatch(ctx context.Context, sources []interface{}, typ *Union, s
 func flattenUnionFragments(typ *Union, selectionSet *SelectionSet, selections *[]*Selection, fragments *[]*Fragment) error {
 	*selections = append(*selections, selectionSet.Selections...)
 	for _, fragment := range selectionSet.Fragments {
-		if fragment.On != typ.Name {
+		if fragment.On != typ.Name && fragment.On != "" {
 			*fragments = append(*fragments, fragment)
 			continue
 		}
